@@ -233,6 +233,12 @@ func cmdCheck(args []string) int {
 			obReps = append(obReps, or)
 			continue
 		}
+		if o.Result == "error" {
+			or.Status = "solver-error"
+			toolErrs = append(toolErrs, fmt.Sprintf("%s: every solver rejected the query: %s", o.Name, truncate(o.Raw, 200)))
+			obReps = append(obReps, or)
+			continue
+		}
 		// failed: known finding?
 		matched := false
 		for _, k := range known {
